@@ -88,6 +88,23 @@ def gen_plan(rng: Rng, tier: str, faulty: bool, profile: str = "loader",
                                 "pre": [], "ops": []}
         for _ in range(r.weighted([(1, 5), (2, 3), (3, 1)])):
             sess["ops"].append(gen_load_op(r, world))
+        if si == 0 and not faulty and profile in ("loader", "symtab") and r.chance(0.2):
+            # an earlier session rewrites the files with the tool's own writer (other format, maybe another
+            # rank); this and later sessions load the rewritten copies
+            rw = r.fork("rewrite")
+            pre_ops: List[Dict[str, Any]] = []
+            for f in world["files"]:
+                stem = f["name"][: f["name"].index(".json")]
+                dst = f"rw/{stem}" + (".json" if f["format"] == "gz" else ".json.gz")
+                pre_ops.append({"op": "write_trace", "src": f["name"], "dst": dst})
+                if rw.chance(0.3):
+                    pre_ops.append({"op": "update_rank", "path": dst, "rank": f["rank"] + 1000})
+            sess["ops"] = pre_ops + [dict(o, via="dir", subdir="rw", mode=("ta" if o["mode"] == "single" else o["mode"]))
+                                     for o in sess["ops"]]
+            for o in sess["ops"]:
+                o.pop("files", None)
+                o.pop("order", None)
+                o.pop("max_ranks", None)
         if faulty:
             fr = r.fork("faults")
             victim = fr.choice(world["files"])["name"]
@@ -123,7 +140,8 @@ def check_load(res: Result, props: Set[str], si: int, op: Dict[str, Any], r: Dic
     inc = bool(op.get("include_last", False))
     fired = [e for e in r["events"] if e.get("ev") == "fault_fired"]
     if op.get("via", "dir") == "dir":
-        relevant = list(ws.files)
+        sub = op.get("subdir")
+        relevant = [p for p in ws.files if (p.startswith(sub + "/") if sub else "/" not in p)]
     elif isinstance(op.get("files"), dict):
         relevant = list(op["files"].values())
     else:
@@ -319,6 +337,11 @@ def check(plan: Dict[str, Any], execution: Dict[str, Any], props: Optional[Set[s
             op = sess["ops"][r["i"]]
             if op["op"] == "load" and r["ok"] is not None:
                 check_load(res, props, si, op, r, ws, faults_active, low_memory)
+            elif op["op"] in ("write_trace", "update_rank") and r["ok"]:
+                for name, info in (r["obs"] or {}).get("files", {}).items():
+                    ws.files[name] = {"doc": info.get("doc"), "torn": not info.get("valid"),
+                                      "format": "gz" if name.endswith(".gz") else "json", "tool_written": True}
+                res.probe("tool_rewritten_file")
         if len(plan["sessions"]) > 1 and si > 0:
             res.probe("restart_sessions")
     return res
